@@ -86,6 +86,26 @@ def handle : List String → String
       let short := (waited.zip sched).filter (fun (g, want) => g * 100 < want * 99)
       if !short.isEmpty then s!"SPEC key=wait-shorter-than-schedule-{api}-{kind} gaps_us={waited} schedule_us={sched}"
       else s!"OK tags=gaps,{api},{kind},waits{waited.length}"
+  | ["rate", kind, atts] =>
+    -- attempts seen by the environment while the failure persists (x.<kind>.<time_us>): the k-th
+    -- gap is at least the k-th wait of the schedule (whatever an attempt itself took comes on top);
+    -- for a refused connection the first two retries may be immediate
+    let ts := (atts.splitOn ";").filterMap (fun a => match a.splitOn "." with
+      | [_, _, t] => t.toNat?
+      | _ => none)
+    if ts.length < 3 then s!"DIFF harness: rate scenario {kind} saw {ts.length} attempts"
+    else
+      let gaps := (ts.zip (ts.drop 1)).map (fun (a, b) => b - a)
+      let immediate := gaps.filter (· < 8000)
+      let waited := gaps.filter (· ≥ 8000)
+      let allowedImmediate := if kind = "server-refuses" then 2 else 0
+      if immediate.length > allowedImmediate then
+        s!"SPEC key=hot-retry-{kind} immediate={immediate.length} attempts={ts.length}"
+      else
+        let sched : List Nat := (List.range waited.length).map (fun i => ((sched i) / 1000).toNat)
+        let short := (waited.zip sched).filter (fun (g, want) => g * 100 < want * 99)
+        if !short.isEmpty then s!"SPEC key=wait-shorter-than-schedule-{kind} gaps_us={waited} schedule_us={sched}"
+        else s!"OK tags=rate,{kind},attempts{ts.length}"
   | _ => "BAD command"
 
 end GV.Drive.C17
